@@ -68,7 +68,7 @@ Fixpoint run_ops (t : octree) (ops : list oc_op) : outcome (list oc_obs) :=
   | OPalette :: r =>
       let* p := build_palette t in let* o := run_ops t r in Ok (BPal p :: o)
   | ODigraph :: r =>
-      if has_zero_leaf t then Panic 1104
+      if has_zero_leaf t then Panic 13002
       else let* o := run_ops t r in Ok (BDig (digraph t) :: o)
   end.
 
@@ -136,13 +136,24 @@ Inductive c13_case :=
 | KD (pal qs : list rgb) (impl : list (ires (N * rgb)))
 | OCT (ops : list oc_op) (impl : ires (list oc_obs))
 | QNT (im : img) (k : N) (dither : bool) (impl : ires (list rgb * list (list N)))
-| RND (seed : N) (impl : list N).          (* common::Rnd::with_seed(seed), successive next_u32() *)
+| RND (seed : N) (impl : list N)           (* common::Rnd::with_seed(seed), successive next_u32() *)
+| ACC (pixels : N) (c : rgb) (impl : ires rgb).
+  (* OcTree::insert of `pixels` copies of one colour, then build_palette: the single palette colour *)
 
 Fixpoint rnd_stream (n : nat) (st : N) : list N :=
   match n with
   | O => []
   | S n' => let '(v, st') := next_u32 st in v :: rnd_stream n' st'
   end.
+
+(* n copies of one colour end in one leaf holding (n*r, n*g, n*b, n); the checked accumulators of
+   Image/Octree.v (leaf_add_chk) accept every intermediate sum iff they accept the last one, and the
+   palette colour is then (n*r)/n = r ...: the closed form of `oc_extend oc_new (repeat c n)` followed by
+   build_palette (for sizes that cannot be evaluated step by step in Coq) *)
+Definition acc_model (n : N) (c : rgb) : outcome rgb :=
+  let '(r, g, b) := c in
+  if n =? 0 then Err 0
+  else if leaf_fits (mkLeaf (n * r) (n * g) (n * b) n) then Ok c else Panic 13008.
 
 Definition c13_check (c : c13_case) : bool * bool :=
   match c with
@@ -157,6 +168,9 @@ Definition c13_check (c : c13_case) : bool * bool :=
        | INone => (img_height im =? 0) || (img_width im =? 0)   (* only an empty image has no palette *)
        | _ => false
        end)
+  | ACC n c impl =>
+      (ires_eqb rgb_eqb (acc_model n c) impl,
+       match impl with IOk c' => rgb_eqb c' c | _ => false end)     (* the image is one colour: so is the palette *)
   | RND seed impl =>
       (* the generator only matters through the sampling it drives: a different stream is a
          broken correspondence, not by itself a violation *)
